@@ -134,12 +134,21 @@ def inline_temporaries(fn: ast.AST, new_names: Set[str]) -> int:
                 # names of the definition that are rebound later would change its meaning
                 rhs_names = {x.id for v in env.values() for x in ast.walk(v)
                              if isinstance(x, ast.Name)}
+                # unsafe only if a use of the temporary comes after (or loops around) a
+                # rebinding of a name its definition mentions
                 rebound = False
+                stored_before = False
                 for s2 in block[i + 1:]:
-                    for x in _walk_scope(s2):
-                        if isinstance(x, ast.Name) and isinstance(x.ctx, ast.Store) and \
-                                x.id in rhs_names:
-                            rebound = True
+                    has_store = any(isinstance(x, ast.Name) and isinstance(x.ctx, ast.Store) and
+                                    x.id in rhs_names for x in _walk_scope(s2))
+                    has_load = any(isinstance(x, ast.Name) and isinstance(x.ctx, ast.Load) and
+                                   x.id in env for x in _walk_scope(s2))
+                    if has_load and stored_before:
+                        rebound = True
+                    if has_load and has_store and isinstance(s2, (ast.For, ast.While)):
+                        rebound = True
+                    if has_store:
+                        stored_before = True
                 if rebound:
                     continue
                 sub = _SubstNames(env)
